@@ -19,7 +19,12 @@ pub struct StreamCase {
 
 /// Row capacity of the driver, measured: length of the first burst of one long left-to-right run.
 pub fn measure_row_cap() -> u64 {
-    let cfg = Config::full(ModelId::ILI9486Rgb565, Transport::Rec8);
+    measure_row_cap_bits(16)
+}
+
+/// the capacity may legitimately depend on the colour type (e.g. a byte-budgeted buffer)
+pub fn measure_row_cap_bits(bits: u32) -> u64 {
+    let cfg = Config::full(if bits == 18 { ModelId::ILI9486Rgb666 } else { ModelId::ILI9486Rgb565 }, Transport::Rec8);
     let Ok(mut s) = Session::start(&cfg) else { return 0 };
     let pts: Vec<(i32, i32)> = (0..300).map(|x| (x, 3)).collect();
     match s.call(&DrawOp::DrawIter { pts, seed: 1 }) {
@@ -152,18 +157,22 @@ pub fn check_with_cap(case: &StreamCase, info: &mut CaseInfo, cap: u64) -> Resul
     Ok(())
 }
 
-thread_local! { static CAP: std::cell::Cell<u64> = std::cell::Cell::new(u64::MAX); }
-fn cap() -> u64 {
+thread_local! { static CAP: std::cell::Cell<(u64, u64)> = std::cell::Cell::new((u64::MAX, u64::MAX)); }
+pub fn cap(bits: u32) -> u64 {
     CAP.with(|c| {
-        if c.get() == u64::MAX {
-            c.set(measure_row_cap());
+        if c.get().0 == u64::MAX {
+            c.set((measure_row_cap_bits(16), measure_row_cap_bits(18)));
         }
-        c.get()
+        if bits == 18 {
+            c.get().1
+        } else {
+            c.get().0
+        }
     })
 }
 
 pub fn check(case: &StreamCase, info: &mut CaseInfo) -> Result<(), String> {
-    check_with_cap(case, info, cap())
+    check_with_cap(case, info, cap(case.cfg.model.bits()))
 }
 
 /// streams dedicated to the batching logic
@@ -235,12 +244,12 @@ pub fn run(ctx: &Ctx) -> Report {
     );
     sec.extra.insert("measured_row_capacity".into(), serde_json::json!(rc));
     sec.extra.insert("measured_block_capacity".into(), serde_json::json!(bc));
-    let n = ctx.cases(30_000, 1_000_000);
+    let n = ctx.cases(120_000, 3_000_000);
     run_generated(&mut sec, ctx.seed, n, ctx.workers, || strategy(wide_menu(), 6), check, sig);
     rep.sections.push(sec);
     if ctx.tier == Tier::Thorough {
         let mut sec = Section::new(&format!("long-streams[{}]", ctx.variant), "as streams, up to 24 segments (thousands of pixels)");
-        run_generated(&mut sec, ctx.seed ^ 3, ctx.cases(0, 100_000), ctx.workers, || strategy(wide_menu(), 24), check, sig);
+        run_generated(&mut sec, ctx.seed ^ 3, ctx.cases(0, 300_000), ctx.workers, || strategy(wide_menu(), 24), check, sig);
         rep.sections.push(sec);
     }
     rep
